@@ -89,6 +89,13 @@ def _unit_facts(ctx, fi, app, lo, hi):
     f = fi.fn
     out = []
     if fi.kind == "seq":
+        # identity map: piece(k) == [B[k]]  =>  fold == B[lo:hi]
+        pc = simp(fi.piece)
+        if z3.is_app(pc) and pc.decl().kind() == z3.Z3_OP_SEQ_UNIT:
+            el = pc.arg(0)
+            if z3.is_app(el) and el.decl().name() == "AT" and z3.eq(el.arg(1), fi.K0):
+                B = el.arg(0)
+                out.append(z3.Implies(z3.And(0 <= lo, lo <= hi, hi <= z3.Length(B)), app == z3.Extract(B, lo, hi - lo)))
         out.append(z3.Implies(hi <= lo, app == smt.EMPTY_SEQ))
         out.append(z3.Implies(hi == lo + 1, app == _piece_at(fi, lo)))
         if fi.unit_len is not None:
@@ -195,8 +202,22 @@ def discharge(ctx, ob, timeout_ms=10000, portfolio=True):
         return ob
     inst = fold_instances(ctx, hyps + [ob.goal])
     inst += aux_instances(ctx, hyps + [ob.goal] + inst)
-    s = make_solver(hyps + inst, ob.goal, timeout_ms)
+    inst += at_instances(hyps + [ob.goal] + inst)
+    full_ms = timeout_ms
+    first_ms = min(timeout_ms, 3000) if portfolio else timeout_ms
+    s = make_solver(hyps + inst, ob.goal, first_ms)
     r = s.check()
+    if r != z3.unsat:
+        # induction lemma: folds over the same range whose pieces agree point-wise are equal
+        lem = pointwise_lemmas(ctx, hyps, hyps + inst + [ob.goal], timeout_ms)
+        lem += char_absence_lemmas(ctx, hyps, hyps + inst + [ob.goal], timeout_ms)
+        if lem:
+            inst += lem
+            more = fold_instances(ctx, lem)
+            inst += more + at_instances(lem + more)
+            s = make_solver(hyps + inst, ob.goal, first_ms)
+            r = s.check()
+            ob.notes = list(ob.notes) + ["fold induction lemma: point-wise equal pieces give equal folds"]
     ob.seconds = time.time() - t0
     ob.backend = "z3-" + z3.get_version_string()
     if r == z3.unsat:
@@ -210,7 +231,7 @@ def discharge(ctx, ob, timeout_ms=10000, portfolio=True):
         except z3.Z3Exception:
             pass
         return ob
-    # unknown: portfolio
+    # unknown: portfolio (z3 4.8.12 and cvc5 race on the same SMT-LIB text)
     ob.status = "unknown"
     ob.model_text = "z3: " + s.reason_unknown()
     if portfolio:
@@ -218,38 +239,268 @@ def discharge(ctx, ob, timeout_ms=10000, portfolio=True):
             text = s.to_smt2()
         except z3.Z3Exception:
             return ob
-        for label, cmd in (("z3-4.8.12", ["/usr/bin/z3", f"-T:{max(1, timeout_ms // 1000)}"]),
-                           ("cvc5-1.0.3", ["/usr/bin/cvc5", "--strings-exp", "--dt-nested-rec", f"--tlimit={timeout_ms}"])):
-            if not os.path.exists(cmd[0]):
-                continue
-            txt = text if label.startswith("z3") else to_cvc5(text)
-            if txt is None:
-                continue
-            verdict, secs = run_cli(cmd, txt, max(1, timeout_ms // 1000))
-            ob.seconds += secs
-            if verdict == "unsat":
-                ob.status = "discharged"
-                ob.backend = label
-                return ob
-            if verdict == "sat" and label.startswith("z3"):
-                ob.status = "failed"
-                ob.backend = label
-                ob.model_text = "sat (z3 4.8.12 CLI); no model extracted"
-                return ob
+        verdict, label, secs = race_cli(text, full_ms)
+        ob.seconds += secs
+        if verdict == "unsat":
+            ob.status = "discharged"
+            ob.backend = label
+        elif verdict == "sat":
+            ob.status = "failed"
+            ob.backend = label
+            ob.model_text = f"sat ({label}); no model extracted"
     return ob
+
+
+def race_cli(text, timeout_ms):
+    """Run the CLI back ends concurrently; first definite answer wins."""
+    secs = max(1, timeout_ms // 1000)
+    cands = []
+    if os.path.exists("/usr/bin/cvc5"):
+        t = to_cvc5(text)
+        if t is not None:
+            cands.append(("cvc5-1.0.3", ["/usr/bin/cvc5", "--strings-exp", "--dt-nested-rec", f"--tlimit={timeout_ms}"], t))
+    if os.path.exists("/usr/bin/z3"):
+        cands.append(("z3-4.8.12", ["/usr/bin/z3", f"-T:{secs}"], text))
+    procs = []
+    t0 = time.time()
+    for label, cmd, txt in cands:
+        f = tempfile.NamedTemporaryFile("w", suffix=".smt2", delete=False)
+        f.write(txt)
+        f.close()
+        procs.append((label, subprocess.Popen(cmd + [f.name], stdout=subprocess.PIPE, stderr=subprocess.DEVNULL, text=True), f.name))
+    verdict, who = "unknown", ""
+    deadline = t0 + secs + 3
+    live = list(procs)
+    while live and time.time() < deadline and verdict == "unknown":
+        for item in list(live):
+            label, p, fn = item
+            if p.poll() is not None:
+                out = (p.stdout.read() or "").strip().splitlines()
+                v = out[0].strip() if out else "unknown"
+                live.remove(item)
+                if v == "unsat" or (v == "sat" and label.startswith("z3")):
+                    verdict, who = v, label
+                    break
+        time.sleep(0.02)
+    for label, p, fn in procs:
+        if p.poll() is None:
+            p.kill()
+        try:
+            os.unlink(fn)
+        except OSError:
+            pass
+    return verdict, who, time.time() - t0
+
+
+def pointwise_lemmas(ctx, hyps, terms, timeout_ms):
+    apps = _apps_of(terms, set(ctx.folds))
+    names = sorted(apps)
+    out = []
+    K = z3.Int("K!pw")
+    for i, a in enumerate(names):
+        for b in names[i + 1:]:
+            fa, fb = ctx.folds[a], ctx.folds[b]
+            if fa.kind != fb.kind or fa.fn.range() != fb.fn.range():
+                continue
+            # pairs of applications over (provably) the same range
+            pairs = []
+            for x in apps[a]:
+                for y in apps[b]:
+                    if (x.get_id(), y.get_id()) not in {(p.get_id(), q.get_id()) for p, q in pairs}:
+                        pairs.append((x, y))
+            for x, y in pairs[:6]:
+                lo, hi = x.arg(0), x.arg(1)
+                s = z3.Solver()
+                s.set("timeout", min(timeout_ms, 5000))
+                for h in hyps:
+                    s.add(h)
+                s.add(lo == y.arg(0), hi == y.arg(1))
+                pa, pb = z3.substitute(fa.piece, (fa.K0, K)), z3.substitute(fb.piece, (fb.K0, K))
+                for f in fa.facts:
+                    s.add(z3.substitute(f, (fa.K0, K)))
+                for f in fb.facts:
+                    s.add(z3.substitute(f, (fb.K0, K)))
+                s.add(lo <= K, K < hi, pa != pb)
+                if s.check() == z3.unsat:
+                    out.append(z3.Implies(z3.And(lo == y.arg(0), hi == y.arg(1)), x == y))
+    return out
+
+
+def _contains_chars(terms):
+    """Single-character string literals c occurring as Contains(_, c) in terms."""
+    out = {}
+    seen = set()
+    stack = list(terms)
+    while stack:
+        t = stack.pop()
+        if t.get_id() in seen:
+            continue
+        seen.add(t.get_id())
+        if z3.is_app(t):
+            if t.decl().kind() == z3.Z3_OP_SEQ_CONTAINS and z3.is_string_value(t.arg(1)):
+                c = t.arg(1).as_string()
+                if len(c) == 1:
+                    out[c] = t.arg(1)
+            stack.extend(t.children())
+    return list(out.values())
+
+
+def char_absence_lemmas(ctx, hyps, terms, timeout_ms):
+    """Induction lemma for string folds: if no piece contains the character c, the fold does not either."""
+    apps = _apps_of(terms, {n for n, f in ctx.folds.items() if f.kind == "str"})
+    chars = _contains_chars(terms)
+    out = []
+    K = z3.Int("K!ca")
+    for name, alist in apps.items():
+        fi = ctx.folds[name]
+        seen = set()
+        for a in alist:
+            if a.get_id() in seen:
+                continue
+            seen.add(a.get_id())
+            lo, hi = a.arg(0), a.arg(1)
+            for c in chars:
+                s = z3.Solver()
+                s.set("timeout", min(timeout_ms, 5000))
+                for h in hyps:
+                    s.add(h)
+                for f in fi.facts:
+                    s.add(z3.substitute(f, (fi.K0, K)))
+                s.add(lo <= K, K < hi, z3.Contains(z3.substitute(fi.piece, (fi.K0, K)), c))
+                if s.check() == z3.unsat:
+                    out.append(z3.Not(z3.Contains(a, c)))
+    return out
 
 
 def to_cvc5(text):
     """z3's printer uses a few z3-only symbols; translate the common ones, give up otherwise."""
-    if "seq.nth_u" in text or "seq.nth_i" in text or "lambda" in text or "as-array" in text:
+    if "lambda" in text or "as-array" in text:
         return None
-    t = text.replace("(set-info :status unknown)", "")
+    # seq.nth_i (in-bounds nth) and seq.nth_u (unspecified out-of-bounds value) are both instances of the total
+    # SMT-LIB seq.nth
+    t = text.replace("seq.nth_u", "seq.nth").replace("seq.nth_i", "seq.nth")
+    t = t.replace("(set-info :status unknown)", "")
     if "(set-logic" not in t:
         t = "(set-logic ALL)\n" + t
     t = t.replace("(check-sat)", "(check-sat)\n")
     return t
 
 
+def at_instances(terms):
+    """AT(s, i) is seq.nth(s, i) for in-range i."""
+    out = []
+    seen = set()
+    for a in _apps_of(terms, {"AT"}).get("AT", []):
+        if a.get_id() in seen:
+            continue
+        seen.add(a.get_id())
+        s, i = a.arg(0), a.arg(1)
+        out.append(z3.Implies(z3.And(0 <= i, i < z3.Length(s)), a == s[i]))
+    return out
+
+
 def aux_instances(ctx, terms):
-    """Instances of axioms for sort / set_perm / seq_elems helper symbols (membership, permutation)."""
-    return []
+    """Ground instances of the axioms of Counter / hash_fs (functions of the multiset of a list under lawful
+    element equality): Counter(a)==Counter(b) => hash_fs(a)==hash_fs(b); Counter is a congruence for prefixing;
+    element-wise equal unit lists have equal Counter and hash_fs."""
+    out = []
+    for a in _apps_of(terms, {"pyeq"}).get("pyeq", []):
+        x, y = a.arg(0), a.arg(1)
+        out.append(smt.pyeq(x, y) == smt.pyeq(y, x))
+        out.append(z3.Implies(smt.pyeq(x, y), smt.pyhash(x) == smt.pyhash(y)))
+    apps = _apps_of(terms, {"Counter", "hash_fs"})
+    cnt = ctx.uf.get("Counter")
+    hfs = ctx.uf.get("hash_fs")
+    seqs = []
+    for n in ("Counter", "hash_fs"):
+        for a in apps.get(n, []):
+            if a.arg(0).get_id() not in {x.get_id() for x in seqs}:
+                seqs.append(a.arg(0))
+    if cnt is None:
+        import z3 as _z
+        cnt = ctx.func("Counter", smt.SeqV, V)
+    if hfs is None:
+        hfs = ctx.func("hash_fs", smt.SeqV, smt.IntS)
+    for i, a in enumerate(seqs):
+        for b in seqs[i + 1:]:
+            out.append(z3.Implies(cnt(a) == cnt(b), hfs(a) == hfs(b)))
+            # common prefix: [p...] ++ a' vs [p...] ++ b'
+            ia, ib = _split_units(a), _split_units(b)
+            if ia is not None and ib is not None:
+                (pa, ra), (pb, rb) = ia, ib
+                if len(pa) == len(pb) and pa and not (ra is None and rb is None):
+                    ra = ra if ra is not None else smt.EMPTY_SEQ
+                    rb = rb if rb is not None else smt.EMPTY_SEQ
+                    pre = z3.And([x == y for x, y in zip(pa, pb)]) if pa else z3.BoolVal(True)
+                    out.append(z3.Implies(z3.And(pre, cnt(ra) == cnt(rb)), cnt(a) == cnt(b)))
+                # common suffix: a' ++ [s...] vs b' ++ [s...]
+                sa, sb = _split_units_suffix(a), _split_units_suffix(b)
+                if sa is not None and sb is not None and sa[1] and sb[1] and len(sa[1]) == len(sb[1]) \
+                        and not (sa[0] is None and sb[0] is None):
+                    suf = z3.And([z3.Or(x == y, smt.pyeq(x, y)) for x, y in zip(sa[1], sb[1])])
+                    r1 = sa[0] if sa[0] is not None else smt.EMPTY_SEQ
+                    r2 = sb[0] if sb[0] is not None else smt.EMPTY_SEQ
+                    out.append(z3.Implies(z3.And(suf, cnt(r1) == cnt(r2)), cnt(a) == cnt(b)))
+                if ra is None and rb is None and len(pa) == len(pb):
+                    el = z3.And([z3.Or(x == y, smt.pyeq(x, y)) for x, y in zip(pa, pb)]) if pa else z3.BoolVal(True)
+                    out.append(z3.Implies(el, z3.And(cnt(a) == cnt(b), hfs(a) == hfs(b))))
+    return out
+
+
+def _flat_concat(seq):
+    if z3.is_app(seq) and seq.decl().kind() == z3.Z3_OP_SEQ_CONCAT:
+        out = []
+        for c in seq.children():
+            out += _flat_concat(c)
+        return out
+    return [seq]
+
+
+def _split_units_suffix(seq):
+    """seq == rest ++ [u1..un] -> (rest|None, [u1..un])"""
+    seq = simp(seq)
+    if z3.is_app(seq) and seq.decl().kind() == z3.Z3_OP_ITE:
+        a, b = _split_units_suffix(seq.arg(1)), _split_units_suffix(seq.arg(2))
+        if a[0] is not None and b[0] is not None and len(a[1]) == len(b[1]) and all(z3.eq(x, y) for x, y in zip(a[1], b[1])):
+            return z3.If(seq.arg(0), a[0], b[0]), a[1]
+        return seq, []
+    if z3.is_app(seq) and seq.decl().kind() == z3.Z3_OP_SEQ_CONCAT:
+        ch = _flat_concat(seq)
+        units = []
+        i = len(ch)
+        while i > 0 and z3.is_app(ch[i - 1]) and ch[i - 1].decl().kind() == z3.Z3_OP_SEQ_UNIT:
+            units.insert(0, ch[i - 1].arg(0))
+            i -= 1
+        rest = ch[:i]
+        if not rest:
+            return None, units
+        return (z3.Concat(*rest) if len(rest) > 1 else rest[0]), units
+    return seq, []
+
+
+def _split_units(seq):
+    """seq == [u1..un] ++ rest  ->  ([u1..un], rest|None)"""
+    seq = simp(seq)
+    if z3.is_app(seq):
+        k = seq.decl().kind()
+        if k == z3.Z3_OP_ITE:
+            a, b = _split_units(seq.arg(1)), _split_units(seq.arg(2))
+            if a[1] is not None and b[1] is not None and len(a[0]) == len(b[0]) and all(z3.eq(x, y) for x, y in zip(a[0], b[0])):
+                return a[0], z3.If(seq.arg(0), a[1], b[1])
+            return [], seq
+        if k == z3.Z3_OP_SEQ_EMPTY:
+            return [], None
+        if k == z3.Z3_OP_SEQ_UNIT:
+            return [seq.arg(0)], None
+        if k == z3.Z3_OP_SEQ_CONCAT:
+            units = []
+            ch = _flat_concat(seq)
+            i = 0
+            while i < len(ch) and z3.is_app(ch[i]) and ch[i].decl().kind() == z3.Z3_OP_SEQ_UNIT:
+                units.append(ch[i].arg(0))
+                i += 1
+            rest = ch[i:]
+            if not rest:
+                return units, None
+            return units, (z3.Concat(*rest) if len(rest) > 1 else rest[0])
+    return [], seq
